@@ -680,6 +680,7 @@ def run(tier='quick'):
     # closure table the guard reads being written in full by every operation that adds or moves a crate
     from . import c07, c11
     c07.cycle_guard(prog, cg, eff, chk, U9)
+    c07.cycle_guard_table(prog, cg, eff, chk, U9)
     c11.forest_encodings(prog, cg, eff, chk, U9, only=('sub', 'move'), paths=False)
     c07.moved_subtree_closure(prog, cg, eff, chk, U9)
     # 2.x: the closure the guard (and the isPersist triggers) read is defined by the recursive views;
